@@ -4,7 +4,10 @@ use crate::value::Number;
 use std::cmp::Ordering;
 use std::collections::BTreeMap;
 use std::fmt::{self, Display};
+#[cfg(not(kaj_rsass_verif))]
 use std::sync::LazyLock;
+#[cfg(kaj_rsass_verif)]
+use crate::verif::sync::{LazyLock};
 
 /// A color defined by red, green, blue, and alpha components.
 #[derive(Clone, Debug)]
